@@ -43,6 +43,7 @@ const GLYF: Tag = Tag::new(b"glyf");
 const LOCA: Tag = Tag::new(b"loca");
 const HEAD: Tag = Tag::new(b"head");
 const MAXP: Tag = Tag::new(b"maxp");
+const GVAR: Tag = Tag::new(b"gvar");
 
 // ---------------------------------------------------------------- fault-injecting decoder
 struct FaultDecoder {
@@ -125,6 +126,8 @@ fn classify(e: &PatchingError) -> (i64, i64) {
                 4
             } else if *f == F::SERIALIZE_ERROR_OTHER {
                 1
+            } else if *f == F::SERIALIZE_ERROR_NONE {
+                0
             } else {
                 99
             },
@@ -234,6 +237,50 @@ fn loca_bytes(offs: &[u32], long: bool) -> Vec<u8> {
         }
     }
     v
+}
+/// gvar table: header, offsets, then shared tuples and glyph variation data (in either order)
+fn gvar_table(long: bool, axis: u16, stc: u16, glyphs: &[Vec<u8>], data_first: bool, extra_flags: u16) -> Vec<u8> {
+    let mut v = vec![0, 1, 0, 0];
+    be16(&mut v, axis as u32);
+    be16(&mut v, stc as u32);
+    be32(&mut v, 0); // shared tuples offset
+    be16(&mut v, glyphs.len() as u32);
+    be16(&mut v, (long as u32) | extra_flags as u32);
+    be32(&mut v, 0); // data array offset
+    let mut o = 0u32;
+    for g in glyphs.iter() {
+        if long { be32(&mut v, o) } else { be16(&mut v, o / 2) }
+        o += g.len() as u32;
+    }
+    if long { be32(&mut v, o) } else { be16(&mut v, o / 2) }
+    let shared: Vec<u8> = (0..(stc as usize * axis as usize * 2)).map(|i| 0xC0 | (i as u8 & 0x1f)).collect();
+    let data: Vec<u8> = glyphs.concat();
+    let (sto, dao);
+    if data_first {
+        dao = v.len();
+        v.extend_from_slice(&data);
+        sto = v.len();
+        v.extend_from_slice(&shared);
+    } else {
+        sto = v.len();
+        v.extend_from_slice(&shared);
+        dao = v.len();
+        v.extend_from_slice(&data);
+    }
+    v[8..12].copy_from_slice(&(sto as u32).to_be_bytes());
+    v[16..20].copy_from_slice(&(dao as u32).to_be_bytes());
+    v
+}
+fn random_gvar(rng: &mut Rng, ng: usize) -> Vec<u8> {
+    let long = rng.chance(1, 2);
+    let glyphs: Vec<Vec<u8>> = (0..ng).map(|g| {
+        let mut l = if rng.chance(1, 3) { 0 } else { rng.below(7) as usize };
+        if !long { l &= !1; }
+        (0..l).map(|i| 0xA0u8.wrapping_add((g * 8 + i) as u8)).collect()
+    }).collect();
+    let stc = *rng.pick(&[0u16, 0, 1, 2]);
+    let data_first = rng.chance(1, 4);
+    gvar_table(long, 2, stc, &glyphs, data_first, if rng.chance(1, 4) { 0x0100 } else { 0 })
 }
 fn build_font(spec: &FontSpec) -> Vec<u8> {
     let mut fb = FontBuilder::new();
@@ -468,7 +515,14 @@ fn emit_case(cx: &mut Ctx, font: &[u8], st_before: &St, fail_at: Option<usize>, 
 
 // ---------------------------------------------------------------- oracle pieces (implementation only)
 fn fail(cx: &mut Ctx, what: &str, label: &str, term: &str, extra: serde_json::Value) {
-    let key = format!("{}:{}:{:016x}", label, what, fnv(term.as_bytes()));
+    // known defect of /repo (see notes/C18.md F-C18-1): stable key independent of the concrete input
+    let key = if label == "gvar.malformed.5" && what == "valid-patches-rejected" && extra["err"] == "(3, 0)" {
+        "F-C18-1-gvar-without-variation-data-rejected".to_string()
+    } else if label == "threshold.gvar" && what == "valid-patches-rejected" && extra["err"] == "(3, 4)" {
+        "F-C18-2-gvar-widening-out-of-room".to_string()
+    } else {
+        format!("{}:{}:{:016x}", label, what, fnv(term.as_bytes()))
+    };
     cx.st.oracle_failure(json!({"key": key, "what": what, "label": label, "extra": extra, "case": &term[..term.len().min(1500)]}));
 }
 fn loca_offsets(tabs: &BTreeMap<Tag, Vec<u8>>) -> Option<Vec<u32>> {
@@ -531,8 +585,9 @@ fn oracle_glyph_keyed(cx: &mut Ctx, base: &[u8], out: &CallOut, applied: &[(Entr
             };
             let n = tabmap(n);
             let touches_glyf = applied.iter().any(|(_, c)| c.tables.contains(&GLYF));
+            let touches_gvar = applied.iter().any(|(_, c)| c.tables.contains(&GVAR));
             for (t, d) in &b {
-                let special = *t == IFT || *t == IFTX || (touches_glyf && (*t == GLYF || *t == LOCA));
+                let special = *t == IFT || *t == IFTX || (touches_glyf && (*t == GLYF || *t == LOCA)) || (touches_gvar && *t == GVAR);
                 if !special && n.get(t) != Some(d) {
                     fail(cx, "other-table-changed", label, term, json!({"tag": t.to_string()}));
                 }
@@ -554,40 +609,93 @@ fn oracle_glyph_keyed(cx: &mut Ctx, base: &[u8], out: &CallOut, applied: &[(Entr
                     }
                 }
             }
-            if touches_glyf {
-                let (Some(bo), Some(no)) = (loca_offsets(&b), loca_offsets(&n)) else {
-                    fail(cx, "loca-unreadable", label, term, json!({}));
+            let ng = u16::from_be_bytes([b[&MAXP][4], b[&MAXP][5]]) as usize;
+            for tt in [GLYF, GVAR] {
+                if !applied.iter().any(|(_, c)| c.tables.contains(&tt)) {
+                    continue;
+                }
+                let (Some(ba), Some(na)) = (offset_array(&b, tt), offset_array(&n, tt)) else {
+                    fail(cx, "offset-array-unreadable", label, term, json!({"tag": tt.to_string()}));
                     return;
                 };
-                let ng = u16::from_be_bytes([b[&MAXP][4], b[&MAXP][5]]) as usize;
-                let short = b[&HEAD][51] == 0;
-                if no.len() != ng + 1 || no.windows(2).any(|w| w[0] > w[1]) {
-                    fail(cx, "offsets-not-ascending-or-wrong-count", label, term, json!({"offsets": no}));
+                if na.offs.len() != ng + 1 || na.offs.windows(2).any(|w| w[0] > w[1]) {
+                    fail(cx, "offsets-not-ascending-or-wrong-count", label, term, json!({"tag": tt.to_string(), "offsets": na.offs.len()}));
                 }
-                if no.last().copied().unwrap_or(0) as usize != n[&GLYF].len() || no.first().copied() != Some(0) {
-                    fail(cx, "offsets-do-not-cover-data", label, term, json!({"offsets": no}));
+                if na.offs.last().copied().unwrap_or(0) as usize != na.data.len() || na.offs.first().copied() != Some(0) {
+                    fail(cx, "offsets-do-not-cover-data", label, term, json!({"tag": tt.to_string()}));
                 }
+                let mut total = 0usize;
                 for g in 0..ng {
                     let first = applied.iter().find_map(|(_, c)| {
-                        let ti = c.tables.iter().position(|t| *t == GLYF)?;
+                        let ti = c.tables.iter().position(|t| *t == tt)?;
                         let gi = c.gids.iter().position(|x| *x as usize == g)?;
                         Some(c.data[ti][gi].clone())
                     });
                     let exp: Option<Vec<u8>> = match first {
                         Some(mut d) => {
-                            if short && d.len() % 2 == 1 {
+                            total += d.len() + d.len() % 2;
+                            if na.short && d.len() % 2 == 1 {
                                 d.push(0);
                             }
                             Some(d)
                         }
-                        None => glyph_slice(&b, &bo, g).map(|s| s.to_vec()),
+                        None => {
+                            let s = ba.slice(g).map(|s| s.to_vec());
+                            total += s.as_ref().map(|s| s.len()).unwrap_or(0);
+                            s
+                        }
                     };
-                    if glyph_slice(&n, &no, g).map(|s| s.to_vec()) != exp {
-                        fail(cx, "glyph-data-wrong", label, term, json!({"gid": g}));
+                    if na.slice(g).map(|s| s.to_vec()) != exp {
+                        fail(cx, "glyph-data-wrong", label, term, json!({"tag": tt.to_string(), "gid": g}));
+                    }
+                }
+                if ba.short != na.short && !(ba.short && total > 131070) {
+                    fail(cx, "offset-type-changed-without-need", label, term, json!({"tag": tt.to_string(), "total": total}));
+                }
+                if tt == GVAR {
+                    let (bg, ngv) = (&b[&GVAR], &n[&GVAR]);
+                    // header fields other than the two offsets and the long-offsets flag; shared tuples
+                    if bg[0..8] != ngv[0..8] || bg[12..15] != ngv[12..15] || (bg[15] & 0xFE) != (ngv[15] & 0xFE) {
+                        fail(cx, "gvar-header-changed", label, term, json!({}));
+                    }
+                    if ba.shared != na.shared {
+                        fail(cx, "gvar-shared-tuples-changed", label, term, json!({}));
                     }
                 }
             }
         }
+    }
+}
+struct OffArr {
+    offs: Vec<u32>,
+    data: Vec<u8>,
+    short: bool,
+    shared: Vec<u8>,
+}
+impl OffArr {
+    fn slice(&self, g: usize) -> Option<&[u8]> {
+        self.data.get(*self.offs.get(g)? as usize..*self.offs.get(g + 1)? as usize)
+    }
+}
+/// independent reader of glyf+loca / gvar as (offsets, data)
+fn offset_array(t: &BTreeMap<Tag, Vec<u8>>, tt: Tag) -> Option<OffArr> {
+    if tt == GLYF {
+        let offs = loca_offsets(t)?;
+        Some(OffArr { offs, data: t.get(&GLYF)?.clone(), short: *t.get(&HEAD)?.get(51)? == 0, shared: vec![] })
+    } else {
+        let g = t.get(&GVAR)?;
+        if g.len() < 20 {
+            return None;
+        }
+        let u16a = |i: usize| u16::from_be_bytes([g[i], g[i + 1]]) as usize;
+        let u32a = |i: usize| u32::from_be_bytes([g[i], g[i + 1], g[i + 2], g[i + 3]]) as usize;
+        let (axis, stc, sto, gc, flags, dao) = (u16a(4), u16a(6), u32a(8), u16a(12), u16a(14), u32a(16));
+        let long = flags & 1 == 1;
+        let mut offs = vec![];
+        for i in 0..=gc {
+            offs.push(if long { *g.get(20 + i * 4..24 + i * 4).map(|c| u32::from_be_bytes([c[0], c[1], c[2], c[3]])).as_ref()? } else { g.get(20 + i * 2..22 + i * 2).map(|c| u16::from_be_bytes([c[0], c[1]]) as u32 * 2)? });
+        }
+        Some(OffArr { offs, data: g.get(dao..)?.to_vec(), short: !long, shared: g.get(sto..sto + stc * axis * 2)?.to_vec() })
     }
 }
 fn oracle_table_keyed(cx: &mut Ctx, base: &[u8], out: &CallOut, entries: &[TkEntry], expect_ok: Option<bool>, label: &str, term: &str) {
@@ -664,7 +772,7 @@ fn compat(a: u32) -> [u8; 16] {
     }
     c
 }
-fn random_contents(rng: &mut Rng, n: usize, ng: usize, agree: bool, wide: bool) -> Vec<GkContent> {
+fn random_contents(rng: &mut Rng, n: usize, ng: usize, agree: bool, wide: bool, gvar: bool) -> Vec<GkContent> {
     let global: Vec<Vec<u8>> = (0..ng + 2).map(|g| {
         let l = rng.below(6) as usize;
         (0..l).map(|i| (0x10 * (g as u8 + 1)).wrapping_add(i as u8)).collect()
@@ -676,6 +784,13 @@ fn random_contents(rng: &mut Rng, n: usize, ng: usize, agree: bool, wide: bool) 
                 gids.push(rng.below(ng as u64) as u32);
             }
             let mut tables = vec![GLYF];
+            if gvar {
+                match rng.below(4) {
+                    0 => {}
+                    1 => tables = vec![GVAR],
+                    _ => tables.push(GVAR),
+                }
+            }
             if rng.chance(1, 6) {
                 tables.insert(0, tag(b"aaaa"));
             }
@@ -687,10 +802,15 @@ fn random_contents(rng: &mut Rng, n: usize, ng: usize, agree: bool, wide: bool) 
                 .map(|t| {
                     gids.iter()
                         .map(|g| {
-                            if *t != GLYF {
+                            if *t != GLYF && *t != GVAR {
                                 vec![0x55; rng.below(3) as usize]
                             } else if agree {
-                                global[*g as usize].clone()
+                                let mut d = global[*g as usize].clone();
+                                if *t == GVAR {
+                                    d.reverse();
+                                    d.push(0x77);
+                                }
+                                d
                             } else {
                                 let l = rng.below(6) as usize;
                                 (0..l).map(|i| (0x10 * (*g as u8 + 1)).wrapping_add((p * 4 + i) as u8)).collect()
@@ -708,8 +828,12 @@ struct GkScenario {
     font: FontSpec,
     entries: Vec<Entry>,
 }
-fn gk_scenario(rng: &mut Rng, n1: usize, n2: usize, long: bool, ng: usize) -> GkScenario {
+fn gk_scenario(rng: &mut Rng, n1: usize, n2: usize, long: bool, ng: usize, gvar: bool) -> GkScenario {
     let (mut font, _) = glyph_font(rng, long, ng, 6);
+    if gvar {
+        let g = random_gvar(rng, ng);
+        font.tables.insert(GVAR, g);
+    }
     let (ift, mut e1) = ift_table(0, compat(1), 3, "foo", &vec![None; n1]);
     font.tables.insert(IFT, ift);
     if n2 > 0 {
@@ -819,10 +943,10 @@ fn run_gk_malformed(cx: &mut Ctx, rng: &mut Rng) {
     let long = rng.chance(1, 2);
     let ng = 3 + rng.below(4) as usize;
     let n2x = if rng.chance(1, 3) { 1 } else { 0 };
-    let mut sc = gk_scenario(rng, 2, n2x, long, ng);
+    let mut sc = gk_scenario(rng, 2, n2x, long, ng, false);
     let n = sc.entries.len();
     let widex = rng.chance(1, 4);
-    let mut contents = random_contents(rng, n, ng, true, widex);
+    let mut contents = random_contents(rng, n, ng, true, widex, false);
     for c in contents.iter_mut() {
         if c.gids.is_empty() {
             c.gids.push(0);
@@ -1041,6 +1165,111 @@ fn run_gk_malformed(cx: &mut Ctx, rng: &mut Rng) {
                 if o.windows(2).any(|w| w[0] > w[1]) {
                     fail(cx, "offsets-not-ascending", &label, &term, json!({}));
                 }
+            }
+        }
+    }
+}
+
+// ---------------------------------------------------------------- scenario: damaged / unusual gvar
+fn run_gvar_malformed(cx: &mut Ctx, rng: &mut Rng) {
+    let long = rng.chance(1, 2);
+    let ng = 3 + rng.below(4) as usize;
+    let mut sc = gk_scenario(rng, 1, 0, long, ng, true);
+    let glong = rng.chance(1, 2);
+    let mut glyphs: Vec<Vec<u8>> = (0..ng).map(|g| vec![0xB0 + g as u8; 2 * rng.below(3) as usize]).collect();
+    let variant = rng.below(12);
+    let label = format!("gvar.malformed.{}", variant);
+    let mut expect_ok: Option<bool> = Some(false);
+    let stc = *rng.pick(&[0u16, 1, 2]);
+    let mut gids: Vec<u32> = (0..ng as u32).filter(|_| rng.chance(1, 2)).collect();
+    if gids.is_empty() {
+        gids.push(0);
+    }
+    let mut pdata: Vec<Vec<u8>> = gids.iter().map(|g| vec![0x60 + *g as u8; rng.below(5) as usize]).collect();
+    let mut g = gvar_table(glong, 2, stc, &glyphs, rng.chance(1, 3), 0);
+    let w = if glong { 4 } else { 2 };
+    match variant {
+        0 => {
+            // gvar glyph count differs from maxp
+            if rng.chance(1, 2) { glyphs.push(vec![]); } else { glyphs.pop(); }
+            g = gvar_table(glong, 2, stc, &glyphs, false, 0);
+            expect_ok = None;
+        }
+        1 => {
+            let i = rng.below(ng as u64) as usize;
+            let k = 20 + i * w + w - 1;
+            g[k] = g[k].wrapping_add(40);
+            expect_ok = None;
+        }
+        2 => {
+            let v = g.len() as u32 + *rng.pick(&[0u32, 1, 50]);
+            g[16..20].copy_from_slice(&v.to_be_bytes());
+            expect_ok = None;
+        }
+        3 => g[8..12].copy_from_slice(&[0, 0, 0, 0]),
+        4 => {
+            let v = g.len() as u32 + *rng.pick(&[0u32, 1, 9]);
+            g[8..12].copy_from_slice(&v.to_be_bytes());
+            expect_ok = None;
+        }
+        5 => {
+            // no variation data at all, before and after
+            for gl in glyphs.iter_mut() { gl.clear(); }
+            g = gvar_table(glong, 2, stc, &glyphs, false, 0);
+            for d in pdata.iter_mut() { d.clear(); }
+            expect_ok = Some(true);
+        }
+        6 => {
+            let cut = rng.below(g.len().min(20 + (ng + 1) * w) as u64) as usize;
+            g.truncate(cut);
+        }
+        7 => {
+            let nl = g.len().saturating_sub(1 + rng.below(3) as usize);
+            g.truncate(nl);
+            expect_ok = None;
+        }
+        8 => {
+            // slack after the table content
+            g.extend_from_slice(&[0xEE; 7]);
+            expect_ok = Some(true);
+        }
+        9 => {
+            // other flag bits must survive
+            g[14] = 0x12;
+            g[15] |= 0x40;
+            expect_ok = Some(true);
+        }
+        10 => {
+            // glyph beyond maximum in a gvar-only patch
+            gids.push(ng as u32 + rng.below(2) as u32);
+            pdata.push(vec![1, 2]);
+        }
+        _ => {
+            expect_ok = Some(true);
+        }
+    }
+    sc.font.tables.insert(GVAR, g);
+    let both = rng.chance(1, 2);
+    let c = if both {
+        GkContent { tables: vec![GLYF, GVAR], gids: gids.clone(), data: vec![gids.iter().map(|_| vec![9, 9]).collect(), pdata.clone()], wide: false }
+    } else {
+        GkContent { tables: vec![GVAR], gids: gids.clone(), data: vec![pdata.clone()], wide: false }
+    };
+    let base = build_font(&sc.font);
+    let st: St = [(sc.entries[0].uri.clone(), Some(patch_for(&sc.entries[0], &c)))].into_iter().collect();
+    let Some(out) = run_call(&base, &sc.entries, &st, None, 0) else {
+        cx.st.count("select_failed_gvar");
+        return;
+    };
+    let term = emit_case(cx, &base, &st, None, 0, &out, &label);
+    oracle_bookkeeping(cx, &st, &out, &label, &term);
+    let judged = matches!(variant, 3 | 5 | 6 | 8 | 9 | 10 | 11);
+    if judged {
+        oracle_glyph_keyed(cx, &base, &out, &[(sc.entries[0].clone(), c)], expect_ok, &label, &term);
+    } else if let Ok(f) = &out.res {
+        if let Some(a) = font_tables(f).map(tabmap).and_then(|t| offset_array(&t, GVAR)) {
+            if a.offs.windows(2).any(|w| w[0] > w[1]) {
+                fail(cx, "offsets-not-ascending", &label, &term, json!({}));
             }
         }
     }
@@ -1277,6 +1506,44 @@ fn run_threshold(cx: &mut Ctx, rng: &mut Rng) {
         cx.st.nontrivial(&term);
         let _ = rng.next_u64();
     }
+    // gvar: short offsets widen to long when the patched data no longer fits 131070 bytes
+    for (glong, ng, base_total, grow) in [
+        (false, 4usize, 131066usize, 2usize),
+        (false, 4, 131066, 4),
+        (false, 4, 131066, 5),
+        (false, 4, 131066, 6),
+        (false, 4, 131070, 1),
+        (false, 4, 131068, 131072),
+        (false, 600, 100, 131100),
+        (false, 4, 0, 131072),
+        (false, 4, 8, 131070),
+        (true, 4, 131070, 9),
+    ] {
+        let mut glyphs: Vec<Vec<u8>> = vec![vec![]; ng];
+        glyphs[ng - 1] = vec![0xAB; base_total];
+        let mut tables = BTreeMap::new();
+        tables.insert(GVAR, gvar_table(glong, 2, 1, &glyphs, false, 0));
+        tables.insert(MAXP, maxp_table(ng as u16));
+        let (ift, entries) = ift_table(0, compat(1), 3, "foo", &[None]);
+        tables.insert(IFT, ift);
+        let base = build_font(&FontSpec { tables });
+        let c = GkContent { tables: vec![GVAR], gids: vec![1], data: vec![vec![(0..grow).map(|i| 0x40 + (i % 64) as u8).collect()]], wide: false };
+        let st: St = [(entries[0].uri.clone(), Some(patch_for(&entries[0], &c)))].into_iter().collect();
+        let Some(out) = run_call(&base, &entries, &st, None, 0) else { continue };
+        cx.st.evaluations += 1;
+        cx.st.count("threshold.gvar");
+        let term = format!("gvar-threshold long={} glyphs={} base={} grow={}", glong, ng, base_total, grow);
+        oracle_bookkeeping(cx, &st, &out, "threshold.gvar", &term);
+        oracle_glyph_keyed(cx, &base, &out, &[(entries[0].clone(), c)], Some(true), "threshold.gvar", &term);
+        if let Ok(f) = &out.res {
+            let widened = font_tables(f).map(tabmap).and_then(|t| offset_array(&t, GVAR)).map(|a| !a.short).unwrap_or(false);
+            let need = !glong && base_total + grow + grow % 2 > 131070;
+            if widened != (glong || need) {
+                fail(cx, "gvar-widening-wrong", "threshold.gvar", &term, json!({"widened": widened}));
+            }
+        }
+        cx.st.nontrivial(&term);
+    }
 }
 
 fn main() {
@@ -1304,15 +1571,20 @@ fn main() {
             let (n1, n2) = *rng.pick(&[(1usize, 0usize), (2, 0), (3, 0), (2, 1), (1, 1), (2, 2), (4, 0), (3, 1)]);
             let (n1, n2) = if !thorough && n1 + n2 >= 4 && i % 5 != 0 { (2, 1) } else { (n1, n2) };
             let ng = 2 + rng.below(6) as usize;
-            let sc = gk_scenario(&mut rng, n1, n2, long, ng);
+            let with_gvar = i % 3 != 0;
+            let sc = gk_scenario(&mut rng, n1, n2, long, ng, with_gvar);
             let agree = i % 3 != 2;
-            let contents = random_contents(&mut rng, n1 + n2, ng, agree, i % 7 == 3);
+            let contents = random_contents(&mut rng, n1 + n2, ng, agree, i % 7 == 3, with_gvar);
+            if with_gvar { cx.st.count("family.gvar"); }
             cx.st.count(if agree { "family.agree" } else { "family.disagree" });
             cx.st.count(&format!("family.n{}", n1 + n2));
             run_gk_family(&mut cx, &mut rng, &sc, &contents, agree, thorough);
         }
         for _ in 0..if thorough { 3000 } else { 420 } {
             run_gk_malformed(&mut cx, &mut rng);
+        }
+        for _ in 0..if thorough { 1500 } else { 260 } {
+            run_gvar_malformed(&mut cx, &mut rng);
         }
         for _ in 0..if thorough { 2500 } else { 330 } {
             run_tk(&mut cx, &mut rng, thorough);
